@@ -254,11 +254,9 @@ def find(
                 if include_file:
                     # Like an #include on the first line of the file: parsed
                     # in the language of the file it is included into.
-                    state.insert_file(
-                        include_file,
-                        state.langs[state._get_realpath(e["file"])],
-                    )
-                    state.associate(include_file, file_platform)
+                    language = state.langs[state._get_realpath(e["file"])]
+                    state.insert_file(include_file, language)
+                    state.associate(include_file, file_platform, language)
                 else:
                     log.warning(
                         f"{e['file']}: user include '{include}' "
